@@ -230,10 +230,21 @@ def canon_float_int(r):
     return 'fin ' + zs(int(r))
 
 
+def classify_scaling(slope, inter):
+    """the decision of calc_scale for integer data, from the (float32) values the writer reports"""
+    if slope == 1.0 and inter == 0:
+        return 'ok none'
+    if slope == -1.0 and inter == 0:
+        return 'ok flip'
+    if slope == 1.0:
+        return 'ok inter %d' % int(inter)
+    return 'ok range'
+
+
 def impl_int_op(op, args):
     """Run one integer-layer operation on the implementation; returns the canonical string."""
     from nibabel import casting
-    from nibabel.arraywriters import (ArrayWriter, SlopeArrayWriter, SlopeInterArrayWriter, WriterError)
+    from nibabel.arraywriters import WriterError, make_array_writer, get_slope_inter
     with warnings.catch_warnings():
         warnings.simplefilter('ignore')
         try:
@@ -263,30 +274,17 @@ def impl_int_op(op, args):
             if op == 'cc':
                 return 'ok %d' % int(np.can_cast(np.dtype(INT_NAMES[int(args[0])]), np.dtype(INT_NAMES[int(args[1])])))
             if op == 'iu':
+                # the (u)int -> (u)int decision, observed through the PUBLIC writer API only: the
+                # scaling the writer reports (slope, inter), classified by value
                 k, tin, tout, mn, mx = int(args[0]), INT_NAMES[int(args[1])], INT_NAMES[int(args[2])], int(args[3]), int(args[4])
-                base = (ArrayWriter, SlopeArrayWriter, SlopeInterArrayWriter)[k]
-                rec = []
-
-                class Rec(base):
-                    def _range_scale(self, a, b):
-                        rec.append('range')
-                        return super()._range_scale(a, b)
+                hs, hi = {0: (False, False), 1: (True, False), 2: (True, True)}[k]
                 data = np.array([mn, mx], dtype=tin)
                 try:
-                    w = Rec(data, np.dtype(tout))
+                    w = make_array_writer(data, np.dtype(tout), hs, hi)
                 except WriterError:
-                    return 'ok range' if rec else 'err writer'
-                if rec:
-                    return 'ok range'
-                slope = float(getattr(w, 'slope', 1.0))
-                inter = getattr(w, 'inter', 0.0)
-                if slope == 1.0 and inter == 0:
-                    return 'ok none'
-                if slope == -1.0 and inter == 0:
-                    return 'ok flip'
-                if slope == 1.0:
-                    return 'ok inter %d' % int(inter)
-                return 'ok other slope=%r inter=%r' % (slope, inter)
+                    return 'err writer'
+                slope, inter = get_slope_inter(w)
+                return classify_scaling(float(np.float32(slope)), float(np.float32(inter)))
         except ValueError as e:
             return 'err value'
         except AssertionError:
@@ -365,19 +363,14 @@ def int_predicate(op, a, r):
             k, tin, tout, mn, mx = a
             oi = np.iinfo(INT_NAMES[tout])
             lo, hi = int(oi.min), int(oi.max)
-            p = r.split()
-            if p[:2] == ['ok', 'none']:
-                ok = (lo <= mn and mx <= hi) or (mn == 0 and mx == 0)
-                return None if ok else f'no scaling chosen but [{mn}, {mx}] does not fit {INT_NAMES[tout]}'
-            if p[:2] == ['ok', 'inter']:
-                i = int(p[2])
-                if int(np.float32(i)) != i:
-                    return f'intercept {i} is not a float32'
-                return None if (lo <= mn - i and mx - i <= hi) else f'intercept {i}: [{mn - i}, {mx - i}] does not fit {INT_NAMES[tout]}'
-            if p[:2] == ['ok', 'flip']:
-                return None if (lo <= -mx and -mn <= hi) else f'sign flip: [{-mx}, {-mn}] does not fit {INT_NAMES[tout]}'
+            # the decision is observed through the public (slope, inter) only; slope 1 can also come
+            # out of range scaling (constant data, float32 rounding of the slope), so the value class
+            # alone does not say that the data fit: the reload-error predicate on the array cases
+            # (incl. the offset-decision boundary arrays) is the direct check of these decisions
             if r == 'err writer':
-                return None if k == 0 and not (lo <= mn and mx <= hi) else 'refused although the data fit / the writer can scale'
+                fits = lo <= mn and mx <= hi
+                legit = (k == 0 and not fits) or (k == 1 and lo == 0 and mn < 0 < mx)
+                return None if legit else 'refused although the data fit / the writer can scale'
             return None
     return None
 
@@ -531,13 +524,12 @@ def image_class(name):
             'spm2': Spm2AnalyzeImage, 'analyze': AnalyzeImage, 'mgh': MGHImage}[name]
 
 
-def classify_exception(e):
-    import traceback
+def classify_exception(e, state=None):
+    """Outcome class of a refusal: by exception TYPE, refined only by observable state (the scaling
+    the writer reported before the write, when known) -- never by message text or by the name of
+    the raising function.  state = (slope, inter) floats or None."""
     from nibabel.arraywriters import WriterError, ScalingError
     from nibabel.spatialimages import HeaderDataError, HeaderTypeError
-    fn = traceback.extract_tb(e.__traceback__)[-1]
-    where = f'{os.path.basename(fn.filename)}:{fn.name}'
-    msg = str(e)
     if isinstance(e, ScalingError):
         return 'scaling'
     if isinstance(e, WriterError):
@@ -547,33 +539,50 @@ def classify_exception(e):
     if isinstance(e, HeaderDataError):
         return 'header_data'
     if isinstance(e, AssertionError):
-        return {'arraywriters.py:_range_scale': 'assert_nanfill', 'arraywriters.py:_iu2iu': 'assert_iu'}.get(where, 'assert@' + where)
+        return 'assert'
     if isinstance(e, ValueError):
-        if 'must be finite' in msg:
-            return 'value_notfinite'
-        if 'cannot be zero' in msg:
-            return 'value_slopezero'
-        if 'nan_fill' in msg:
+        if state is not None:
+            slope, inter = state
+            if not (np.isfinite(slope) and np.isfinite(inter)):
+                return 'value_notfinite'
+            if slope == 0:
+                return 'value_slopezero'
             return 'value_nanfill'
-    return f'other:{type(e).__name__}@{where}:{msg[:60]}'
+        return 'value'
+    return f'other:{type(e).__name__}:{str(e)[:60]}'
+
+
+def same_status(impl, model):
+    """refusal classes of implementation and model agree (the model's finer classes are merged where
+    the implementation raises one exception type and the state is not observable)"""
+    if impl == model:
+        return True
+    if impl == 'err value':
+        return model.startswith('err value')
+    if impl == 'err assert':
+        return model.startswith('err assert')
+    return False
 
 
 def warning_sites(wl):
-    """(site, message) of the RuntimeWarnings recorded; site = file:function of the raising line"""
-    import linecache
+    """(site, message) of the RuntimeWarnings recorded.  site is decided by the module the warning
+    was raised in (public module file name) and NumPy's own message, never by nibabel source text
+    or private function names: an invalid cast in volumeutils is the data cast of the write, one
+    in arraywriters is the test cast of the scaling calculation."""
     out = []
     for w in wl:
         if not issubclass(w.category, RuntimeWarning):
             continue
-        line = (linecache.getline(w.filename, w.lineno) or '').strip()
         base = os.path.basename(w.filename)
-        if 'astype(out_dtype)' in line and base == 'volumeutils.py':
+        msg = str(w.message)
+        invalid_cast = 'invalid value' in msg and 'cast' in msg          # NumPy's text
+        if invalid_cast and base == 'volumeutils.py':
             site = 'write_cast'
-        elif base == 'arraywriters.py' and 'np.array(nan_fill_i, dtype=out_dtype)' in line:
+        elif invalid_cast and base == 'arraywriters.py':
             site = 'range_scale_testcast'
         else:
-            site = f'{base}:{w.lineno}:{line[:50]}'
-        out.append((site, str(w.message)))
+            site = f'{base}'
+        out.append((site, msg))
     return out
 
 
@@ -596,15 +605,17 @@ def impl_write(case):
     arr = case_array(case)
     out = np.dtype(INT_NAMES[case['out']])
     res = {}
+    state = None
     with warnings.catch_warnings(record=True) as wl:
         warnings.simplefilter('always')
         try:
             if case['route'] == 'w':
                 hs, hi = {0: (False, False), 1: (True, False), 2: (True, True)}[case['wk']]
                 w = make_array_writer(arr, out, hs, hi)
+                slope, inter = get_slope_inter(w)
+                state = (float(slope), float(inter))
                 bio = io.BytesIO()
                 w.to_fileobj(bio)
-                slope, inter = get_slope_inter(w)
                 raw = np.frombuffer(bio.getvalue(), dtype=out)
                 slope32, inter32 = np.float32(slope), np.float32(inter)
                 if float(slope32) != float(slope) or float(inter32) != float(inter):
@@ -634,7 +645,7 @@ def impl_write(case):
             res.update(status='ok', slope=float_to_sf(slope32, 1), inter=float_to_sf(inter32, 1),
                        raw=[int(v) for v in raw.ravel()], back=back, slope_f=float(slope32), inter_f=float(inter32))
         except Exception as e:  # noqa: every exception is a refusal, classified by type and site
-            res.update(status='err ' + classify_exception(e))
+            res.update(status='err ' + classify_exception(e, state))
     res['warn'] = warning_sites(wl)
     return res
 
@@ -1037,36 +1048,46 @@ def predicate(case, r):
 
 
 def proved_bound_check(case, r):
-    """The inequality of theorem C02_float_gap_slope_only, evaluated verbatim where its hypotheses
-    hold: float64 data (binary64 working format), stored intercept 0, binary64 reload, every
-    finite element with |x/s| <= 2^52, and the element unclipped (stored integer =
-    rint(RN(x/s))):  |reload - x| <= |s|/2 + |x| * 2^-52 + |s| * 2^-52.
-    Returns (number of elements checked, message or None)."""
+    """The inequalities of theorems C02_float_gap_slope_only and C02_float_gap_intercept, evaluated
+    verbatim where their hypotheses hold: float64 data (binary64 working format), binary64 reload,
+    every finite element within the no-overflow guard, and the element unclipped (stored integer =
+    rint(RN(RN(x - i)/s))):
+        intercept 0:   |reload - x| <= |s|/2 + |x| * 2^-52 + |s| * 2^-52
+        intercept i:   |reload - x| <= |s|/2 + (|x| + |i| + |s|) * 2^-49
+    Returns (elements checked in the slope-only regime, in the intercept regime, message or None)."""
     from fractions import Fraction
     if case['kind'] != 'f' or case['k'] != 2 or r.get('status') != 'ok':
-        return 0, None
-    if r['inter_f'] != 0.0 or r['slope_f'] == 0.0 or r['back'].dtype != np.float64:
-        return 0, None
+        return 0, 0, None
+    if r['slope_f'] == 0.0 or r['back'].dtype != np.float64:
+        return 0, 0, None
     s = Fraction(r['slope_f'])
+    i = Fraction(r['inter_f'])
     xs = exact_inputs(case)
     fin = [x for x in xs if not isinstance(x, str)]
-    if not fin or any(abs(x / s) > 2 ** 52 for x in fin):
-        return 0, None
-    n = 0
+    lim = 2 ** 52 if i == 0 else 2 ** 51          # |RN(x - i)/s| <= 2^52 follows from |(x - i)/s| <= 2^51
+    if not fin or any(abs((x - i) / s) > lim for x in fin):
+        return 0, 0, None
+    n0 = n1 = 0
     back = r['back'].ravel()
     arr = case_array(case).ravel(order='F')
     with np.errstate(all='ignore'):
-        k_rn = np.rint(arr / np.float64(r['slope_f']))      # rint(RN(x/s)) in binary64
+        k_rn = np.rint((arr - np.float64(r['inter_f'])) / np.float64(r['slope_f']))   # rint(RN(RN(x - i)/s))
     for j, x in enumerate(xs):
         if isinstance(x, str) or float(k_rn[j]) != float(r['raw'][j]):
-            continue                                        # NaN/inf or clipped: theorem (d), not (b)
-        n += 1
+            continue                                        # NaN/inf or clipped: theorem (d)
         b = Fraction(float(back[j]))
-        bound = abs(s) / 2 + abs(x) * Fraction(1, 2 ** 52) + abs(s) * Fraction(1, 2 ** 52)
+        if i == 0:
+            n0 += 1
+            bound = abs(s) / 2 + abs(x) * Fraction(1, 2 ** 52) + abs(s) * Fraction(1, 2 ** 52)
+            thm = 'C02_float_gap_slope_only: |s|/2 + |x|*2^-52 + |s|*2^-52'
+        else:
+            n1 += 1
+            bound = abs(s) / 2 + (abs(x) + abs(i) + abs(s)) * Fraction(1, 2 ** 49)
+            thm = 'C02_float_gap_intercept: |s|/2 + (|x|+|i|+|s|)*2^-49'
         if abs(b - x) > bound:
-            return n, (f'element {j}: {float(x)!r} reloads as {float(b)!r}: error {float(abs(b - x))!r} exceeds the '
-                       f'PROVED bound |s|/2 + |x|*2^-52 + |s|*2^-52 = {float(bound)!r} of C02_float_gap_slope_only')
-    return n, None
+            return n0, n1, (f'element {j}: {float(x)!r} reloads as {float(b)!r}: error {float(abs(b - x))!r} exceeds the '
+                            f'PROVED bound {float(bound)!r} of {thm}')
+    return n0, n1, None
 
 
 def known_signature(case, r, pred):
@@ -1093,8 +1114,8 @@ UNPROVED = [
     'by this harness in its regime), C02_float_gap_intercept_partial (ulp form), C02_clipped_above/_below, '
     'C02_setter_rounding (float32 setter: relative error 2^-24, absolute 2^-150 when subnormal), plus '
     'C02_no_wrap_float(_platform/_inputs) and C02_reload_is_rounding. Missing exactly: (1) the float32 and longdouble '
-    'working formats and the float32 reload of SPM99; (2) the intercept branch with its ulp terms turned into an '
-    'explicit allowance; (3) the whole-array lift is proved for float64 arrays on the SPM path (C02_array_lift, '
+    'working formats and the float32 reload of SPM99; (2) done per element for binary64: C02_float_gap_intercept '
+    '(|s|/2 + (|x|+|i|+|s|)*2^-49, evaluated verbatim by this harness in its regime); (3) the whole-array lift is proved for float64 arrays on the SPM path (C02_array_lift, '
     'C02_array_gap_slope_only: working format = binary64, clip bounds = post_bounds_f, value-preserving cast) - not for '
     'the NIfTI path with intercept 0, not for 32/64-bit integer arrays, and the guard |x/s| <= 2^52 is a hypothesis on '
     '(array, stored slope), not yet derived from the data through the slope formula; (4) how far extreme elements '
@@ -1215,8 +1236,26 @@ def int_layer(chk, facts):
             for tout in range(8):
                 for mn, mx in offset_boundaries(tin, tout):
                     ops.append(('iu', [k, tin, tout, mn, mx]))
-    lines = [f'I{j} {op} ' + ' '.join(zs(x) for x in a) for j, (op, a) in enumerate(ops)]
+    lines = []
+    for j, (op, a) in enumerate(ops):
+        if op == 'iu':
+            # the model's writer on the two-element array [mn, mx]; its reported scaling is classified
+            # by value exactly like the implementation's (model_iu_canon)
+            lines.append(f'I{j} w {a[0]} {a[2]} i{a[1]} 2 {a[3]} {a[4]}')
+        else:
+            lines.append(f'I{j} {op} ' + ' '.join(zs(x) for x in a))
     return lines, ops
+
+
+def model_iu_canon(m):
+    """model output of the writer op -> the value-based decision class used for the implementation"""
+    if m.startswith('err'):
+        return m
+    p = m.split()
+    sl, it = sf_to_fraction(p[1]), sf_to_fraction(p[2])
+    if isinstance(sl, str) or isinstance(it, str):
+        return 'ok nonfinite'
+    return classify_scaling(float(sl), float(it))
 
 
 def ideal_cases(rng, n):
@@ -1285,8 +1324,10 @@ def ideal_impl(c):
             array_to_file(data, bio, out, offset=0, intercept=float(c['i']), divslope=float(c['s']),
                           mn=None if c['mn'] is None else float(c['mn']), mx=None if c['mx'] is None else float(c['mx']),
                           nan2zero=c['n2z'])
-        except ValueError as e:
-            return 'err nanfill' if 'nan_fill' in str(e) else 'err other:' + str(e)[:50], []
+        except ValueError:
+            # slope and intercept are finite and non-zero by construction: the only ValueError left is
+            # the nan fill value outside the safe range
+            return 'err nanfill', []
     raw = np.frombuffer(bio.getvalue(), dtype=out)
     bad = any(s == 'write_cast' for s, _ in warning_sites(wl))
     return 'ok bad=%d raw=[%s]' % (int(bad), ','.join(str(int(v)) for v in raw)), warning_sites(wl)
@@ -1359,6 +1400,8 @@ def run(chk: Check):
     for j, (op, a) in enumerate(iops):
         r = impl_int[j]
         m = mod.get(f'I{j}', '<missing>')
+        if op == 'iu':
+            m = model_iu_canon(m)
         big = any(isinstance(x, int) and x.bit_length() > 64 for x in a)
         chk.count(key=('int', op, tuple(a)) if op not in ('cc',) else None, tag='int:' + op,
                   sample={'op': op, 'args': [zs(x) for x in a], 'result': r} if j in (5, 4000) else None)
@@ -1398,7 +1441,7 @@ def run(chk: Check):
             warn_sites[site + ': ' + msg[:40]] = warn_sites.get(site + ': ' + msg[:40], 0) + 1
         # ---- correspondence
         dis = None
-        if r['status'] != m['status']:
+        if not same_status(r['status'], m['status']):
             dis = ('status', r['status'], m['status'])
         elif r['status'] == 'ok':
             if r['slope'] != m['slope'] or canon_zero(r['inter']) != canon_zero(m['inter']):
@@ -1417,9 +1460,11 @@ def run(chk: Check):
         pred = None
         if r['status'] == 'ok':
             pred = predicate(c, r)
-            npb, pbmsg = proved_bound_check(c, r)
+            npb, npi, pbmsg = proved_bound_check(c, r)
             if npb:
                 chk.tagc('proved_bound_C02_float_gap_slope_only:elements', npb)
+            if npi:
+                chk.tagc('proved_bound_C02_float_gap_intercept:elements', npi)
             if pred is None and pbmsg:
                 pred = pbmsg
             if pred is None and any(s == 'write_cast' for s, _ in r['warn']):
@@ -1504,7 +1549,11 @@ def replay(chk, obj):
             a = [int(x, 0) for x in c['args']]
             r = impl_int_op(c['op'], a)
             print('implementation:', r[:300])
-            print('model         :', run_model(PROP, ['0 %s %s' % (c['op'], ' '.join(zs(x) for x in a))]).get('0', '')[:300])
+            if c['op'] == 'iu':
+                mm = model_iu_canon(run_model(PROP, [f'0 w {a[0]} {a[2]} i{a[1]} 2 {a[3]} {a[4]}']).get('0', ''))
+            else:
+                mm = run_model(PROP, ['0 %s %s' % (c['op'], ' '.join(zs(x) for x in a))]).get('0', '')
+            print('model         :', mm[:300])
             p = int_predicate(c['op'], a, r)
             print('predicate:', p or 'holds')
             return 1 if (p or obj.get('kind') == 'correspondence') else 0
